@@ -109,6 +109,7 @@ func runSolvers(query string, file string, timeout time.Duration, wantModel bool
 	go func() { wg.Wait(); close(ch) }()
 	res := SolverResult{Status: "timeout", All: map[string]string{}}
 	decided := false
+	first := true
 	for r := range ch {
 		res.All[r.solver] = r.status
 		if decided {
@@ -132,7 +133,11 @@ func runSolvers(query string, file string, timeout time.Duration, wantModel bool
 			}
 			continue
 		}
-		if res.Status == "timeout" || (res.Status == "error" && r.status == "unknown") {
+		// undecided answers: "unknown" outranks "timeout" outranks "error" (a solver that could not
+		// run or rejected the query only matters if none of the others ran either)
+		rank := map[string]int{"error": 0, "timeout": 1, "unknown": 2}
+		if first || rank[r.status] > rank[res.Status] {
+			first = false
 			if !decided {
 				res.Status = r.status
 				res.Solver = r.solver
